@@ -55,6 +55,24 @@ def nums(xs, st=None):
     return [float(f) for f in fr]
 
 
+def spell_ref(c, st):
+    """the reference point in the spelling the case asks for: list / tuple / ndarray, and for
+    one-dimensional meshes a plain number or a numpy scalar"""
+    if c.get("ref") is None:
+        return None
+    vals = list(nums(c["ref"], st))
+    sp = c.get("refspell", "list")
+    if sp == "tuple":
+        return tuple(vals)
+    if sp == "array":
+        return np.array(vals)
+    if sp == "scalar" and len(vals) == 1:
+        return vals[0] if not isinstance(vals[0], np.generic) else vals[0].item()
+    if sp == "npscalar" and len(vals) == 1:
+        return np.float64(vals[0]) if isinstance(vals[0], float) else np.int64(vals[0])
+    return vals
+
+
 def typed(x, t):
     """a selection bound of the requested Python / numpy type (float when the type cannot hold it)"""
     f = F(x)
@@ -257,6 +275,29 @@ def gen_setter(rng, exact, scale=None, ints=False):
     return dict(kind="setter", st=st, cands=cands, via=via)
 
 
+def gen_overshoot(rng):
+    """a long axis and a candidate whose lower corner is on the lattice while its upper corner overshoots
+    a cell face by 2^-13 cell: inside, 'whole cells' within the 0.1 % slack, cell equal within rtol 1e-5 -
+    only the upper-corner lattice test refuses it"""
+    st = gen_state(rng, True, nsubs=rng.choice([0, 1]))
+    cq = cellq(st)
+    a = min(range(len(cq)), key=lambda b: cq[b])
+    lo, hi = bounds(st)
+    k = rng.randint(16, 40)
+    st["p1"][a], st["p2"][a], st["n"][a] = S(lo[a]), S(lo[a] + k * cq[a]), k
+    st["subs"], st["sub_idx"] = [], {}
+    if rng.random() < 0.5:
+        add_sub(rng, st)
+    box = rand_idx_box(rng, st)
+    j1 = rng.randint(0, k - 15)
+    box[a] = [j1, rng.randint(j1 + 14, k - 1)]
+    p1 = [face(st, b, x[0]) for b, x in enumerate(box)]
+    p2 = [face(st, b, x[1]) for b, x in enumerate(box)]
+    p2[a] += cq[a] / 8192
+    cand = [rng.choice(NAMES), [S(x) for x in p1], [S(x) for x in p2], S(DEFAULT_TF), "pmax-overshoot"]
+    return dict(kind="setter", st=st, cands=[cand], via="setter")
+
+
 def gen_aligned(rng, exact, scale=None, ints=False):
     st = gen_state(rng, exact, nsubs=0, scale=scale, ints=ints)
     nd = len(st["n"])
@@ -315,6 +356,12 @@ def gen_op(rng, st, exact):
     ref = None
     if rng.random() < 0.5:
         ref = [S(num()) for _ in range(nd)]
+        if rng.random() < 0.4:
+            # reference points containing zeros (a falsy point is still a point)
+            for b in range(nd):
+                if rng.random() < 0.7:
+                    ref[b] = S(0)
+    refspell = rng.choice(["list", "tuple", "array", "array"] + (["scalar", "npscalar"] if nd == 1 and kind == "scale" else []))
     if kind == "translate":
         v = [S(num()) for _ in range(nd)]
         if rng.random() < 0.3:
@@ -334,14 +381,14 @@ def gen_op(rng, st, exact):
         if rng.random() < 0.08:
             f[rng.randrange(nd)] = 0
             f = [f[0]] * nd if scalar else f
-        return dict(op="scale", f=[S(x) for x in f], scalar=scalar, ref=ref)
+        return dict(op="scale", f=[S(x) for x in f], scalar=scalar, ref=ref, refspell=refspell)
     a = rng.randrange(nd)
     b = rng.randrange(nd)
     if a == b and rng.random() < 0.85 and nd > 1:
         b = (a + 1 + rng.randrange(nd - 1)) % nd
     if rng.random() < 0.05:
         b = nd      # unknown dimension name
-    return dict(op="rotate", a=a, b=b, k=rng.randint(-3, 5), ref=ref)
+    return dict(op="rotate", a=a, b=b, k=rng.randint(-3, 5), ref=ref, refspell=refspell)
 
 
 def gen_sel_range(rng, st, exact):
@@ -419,6 +466,8 @@ def generate(rng, tier):
         cases.append(gen_aligned(rng, exact=(k % 2 == 0), ints=(k % 6 == 0)))
     for k in range(nm * 6):
         cases.append(gen_setter(rng, exact=(k % 2 == 0), ints=(k % 6 == 0)))
+    for k in range(nm):
+        cases.append(gen_overshoot(rng))
     # picometre cells: the absolute tolerance decides
     for k in range(nm):
         cases.append(gen_setter(rng, exact=False, scale=1e-12))
@@ -447,6 +496,22 @@ def generate(rng, tier):
         st = gen_state(rng, True, nsubs=rng.choice([0, 1, 2]), ints=(k % 3 == 0))
         cases.append(dict(kind="malformed", st=st, what=rng.choice(["list", "int-key", "tuple-value", "none-value",
                                                                     "str-value", "mesh-value", "bad-second"])))
+    # one-dimensional meshes with subregions scaled about 0 (a plain number is a valid reference point
+    # there) and reference points full of zeros in every spelling, copying and in-place
+    for k in range(nm * 2):
+        exact = k % 4 != 3
+        st = gen_state(rng, exact, nd=1 if k % 2 == 0 else rng.choice([2, 3]), nsubs=rng.choice([1, 2]),
+                       ints=(k % 8 == 0))
+        nd_ = len(st["n"])
+        pool = [F(2), F(1, 2), F(3), F(-1), F(3, 2)] if exact else [2.0, 0.5, 3.0, -1.0, 1.5, 7.3]
+        f = rng.choice(pool)
+        ref = [S(0)] * nd_
+        if nd_ > 1 and rng.random() < 0.5:
+            ref[rng.randrange(nd_)] = S(F(rng.randint(-16, 16), 2))
+        cases.append(dict(kind="transform", st=st, inplace=(k // 2) % 2 == 0, op="scale", f=[S(f)] * nd_,
+                          scalar=rng.random() < 0.7, ref=ref,
+                          refspell=rng.choice(["scalar", "npscalar", "list", "array", "tuple"] if nd_ == 1
+                                              else ["list", "tuple", "array", "array"])))
     # aliasing: a stored subregion must be the mesh's own object
     for k in range(nm * 3):
         st = gen_state(rng, True, nsubs=rng.choice([1, 2, 3]), ints=(k % 4 == 0))
@@ -471,8 +536,9 @@ def gen_alias(rng, st, mode):
         op = dict(op="translate", v=v)
     else:
         f = rng.choice([F(2), F(1, 2), F(3), F(-1), F(3, 2)])
-        ref = None if rng.random() < 0.5 else [S(F(rng.randint(-16, 16), 2)) for _ in range(nd)]
-        op = dict(op="scale", f=[S(f)] * nd, scalar=True, ref=ref)
+        ref = None if rng.random() < 0.5 else [S(rng.choice([F(0), F(rng.randint(-16, 16), 2)])) for _ in range(nd)]
+        op = dict(op="scale", f=[S(f)] * nd, scalar=True, ref=ref,
+                  refspell=rng.choice(["list", "tuple", "array"] + (["scalar", "npscalar"] if nd == 1 else [])))
     a = rng.randrange(nd)
     mut = [S(cq[b] / 2 if b == a else 0) for b in range(nd)]
     return dict(kind="alias", st=st, mode=mode, carry=rng.random() < 0.75, inplace=rng.random() < 0.6,
@@ -629,6 +695,11 @@ def classify_candidate(st, p1, p2):
             bad = True
         if e < c * F(99, 100) or lattice_dist(e, c) > min(cq) / 100 + c / 100:
             bad = True
+        noise4 = 4 * ALIGN_TOL + 4 * maxabs(st) * F(1, 2 ** 49)
+        if lattice_dist(smin[a] - lo[a], c) > noise4 or lattice_dist(hi[a] - smax[a], c) > noise4:
+            # either corner off the lattice by clearly more than the documented tolerance 1e-12
+            # (d > 4e-12 implies c >= 2d > 8e-12, so the remainder test of the code sees it)
+            bad = True
         if lattice_dist(smin[a] - lo[a], c) > c / 10:
             # (an absolute tolerance cannot see this when the cell is within a factor 10 of it: that
             #  is the known finding C14-abs-tolerance; such cases carry its tag)
@@ -676,6 +747,10 @@ def run_case(c):
         noise = max(abs(x) for x in lo + hi + lo2 + hi2) * F(1, 2 ** 49)
         if res and (cells_differ or any(d > cc / 10 and (tol == ALIGN_TOL or d > 2 * tol)
                                         for d, cc in zip(dmin + dmax, c1 + c1))):
+            rec["oracle"].append("misaligned-reported-aligned")
+        # both corner differences, exact rationals: clearly beyond the tolerance in use on either corner
+        # (d > 4*tol implies cell >= 2d > 8*tol, so the remainder test sees it)
+        if res and any(d > 4 * tol + 4 * noise for d in dmin + dmax):
             rec["oracle"].append("misaligned-reported-aligned")
         if (not res) and cells_equal and noise <= tol / 4 and all(d <= tol / 4 for d in dmin + dmax) \
                 and all(abs(x - y) <= tol / 4 for x, y in zip(c1, c2)):
@@ -789,10 +864,10 @@ def run_case(c):
 
     if kind == "transform":
         inplace = c["inplace"]
-        ex = exact and c["op"] != "rotate"
+        ex = exact
 
         def call():
-            ref = None if c.get("ref") is None else nums(c["ref"], st)
+            ref = spell_ref(c, st)
             if c["op"] == "translate":
                 return mesh.translate(nums(c["v"], st), inplace=inplace)
             if c["op"] == "scale":
@@ -1034,7 +1109,7 @@ def run_alias(c, rec, size):
         return df.Region(p1=nums(x[1], st), p2=nums(x[2], st), **kw)
 
     def transform(mesh):
-        ref = None if c.get("ref") is None else nums(c["ref"], st)
+        ref = spell_ref(c, st)
         if c["op"] == "translate":
             return mesh.translate(nums(c["v"], st), inplace=c["inplace"])
         return mesh.scale(nums(c["f"], st)[0], reference_point=ref, inplace=c["inplace"])
